@@ -6,6 +6,7 @@ package main
 
 import (
 	"fmt"
+	"reflect"
 	"sort"
 	"strings"
 
@@ -20,6 +21,13 @@ import (
 type evA struct{ ID string }
 type evB struct{ ID string }
 
+// mkC returns an event of a THIRD type (letter C) that prints exactly like evA ("main.evA") but is a different type: a type
+// declared inside a function. Event types are told apart by identity, not by their printed names.
+func mkC(id string) any {
+	type evA struct{ ID string }
+	return evA{ID: id}
+}
+
 type recMailbox struct {
 	name string
 	got  *[]string // "sub<-eventID"
@@ -31,6 +39,10 @@ func (m *recMailbox) Enqueue(e vivid.Envelop) {
 		*m.got = append(*m.got, m.name+"<-"+v.ID)
 	case evB:
 		*m.got = append(*m.got, m.name+"<-"+v.ID)
+	default:
+		if rv := reflect.ValueOf(e.Message()); rv.Kind() == reflect.Struct && rv.NumField() == 1 && rv.Type() == reflect.TypeOf(mkC("")) {
+			*m.got = append(*m.got, m.name+"<-"+rv.Field(0).String())
+		}
 	}
 }
 func (m *recMailbox) Pause()         {}
@@ -104,26 +116,35 @@ func scenario(threads [][]string, pre []string, bounds []int) *vexp.Scenario {
 				ops = append(ops, o)
 				switch tok[0] {
 				case 'S':
-					if tok[2] == 'A' {
+					switch tok[2] {
+					case 'A':
 						es.Subscribe(subs[tok[1]], evA{})
-					} else {
+					case 'B':
 						es.Subscribe(subs[tok[1]], evB{})
+					case 'C':
+						es.Subscribe(subs[tok[1]], mkC(""))
 					}
 				case 'U':
-					if tok[2] == 'A' {
+					switch tok[2] {
+					case 'A':
 						es.Unsubscribe(subs[tok[1]], evA{})
-					} else {
+					case 'B':
 						es.Unsubscribe(subs[tok[1]], evB{})
+					case 'C':
+						es.Unsubscribe(subs[tok[1]], mkC(""))
 					}
 				case 'X':
 					es.UnsubscribeAll(subs[tok[1]])
 				case 'P':
 					evn++
 					o.eventID = fmt.Sprintf("%c%d", tok[1], evn)
-					if tok[1] == 'A' {
+					switch tok[1] {
+					case 'A':
 						es.Publish(pubCtx, evA{ID: o.eventID})
-					} else {
+					case 'B':
 						es.Publish(pubCtx, evB{ID: o.eventID})
+					case 'C':
+						es.Publish(pubCtx, mkC(o.eventID))
 					}
 				}
 				clock++
@@ -289,6 +310,10 @@ func build(tier string) []*vexp.Scenario {
 			b = b3
 		}
 		out = append(out, scenario(t, []string{"S1A", "S2A", "S1B", "S3B"}, b))
+	}
+	// two event types with the same printed name (A is main.evA, C a function-local type that also prints main.evA)
+	for _, t := range [][][]string{{{"PA", "PC"}}, {{"S1C", "U1C", "PA", "PC"}}, {{"PA"}, {"PC"}}, {{"U1C"}, {"PA", "PC"}}, {{"X2", "PA", "PC"}}} {
+		out = append(out, scenario(t, []string{"S1A", "S2C"}, b2))
 	}
 	three := [][][]string{
 		{{"S1A"}, {"S2A"}, {"PA"}}, {{"S1A"}, {"U1A"}, {"PA"}}, {{"S1A", "S1B"}, {"X1"}, {"PB"}}, {{"PA"}, {"PA"}, {"S1A"}},
